@@ -4,6 +4,7 @@ The same definitions are the conclusions of the theorems in `Props.lean` and the
 evaluates on the implementation's observed data points.
 -/
 import Otel.C07.Model
+import Otel.C07.Path
 namespace Otel.C07
 namespace Spec
 
@@ -166,6 +167,15 @@ def classify (s : Int) (absBits : Nat) (idx : Int) : Place :=
     if idx == e then .ok
     else if (idx - e).natAbs == 1 && F14_applies s absBits then .f14
     else .bad
+
+/-! ## configuration paths -/
+
+/-- F46: the view is a hand-written `View` function and the aggregation it returns is an exponential histogram
+whose parameters `AggregationBase2ExponentialHistogram.err()` would reject — nothing on that path calls `err()` -/
+def custom_view_unvalidated (vk : ViewKind) (va : Option ACfg) : Bool :=
+  vk == .custom && (match va with
+                    | some (.expo ms sc _) => !validExpo ms sc
+                    | _ => false)
 
 end Spec
 end Otel.C07
